@@ -34,6 +34,19 @@ def param_validation(ctx):
     return {'secp_mul_vs_libsecp256k1': len(ks)}
 
 
+def _tree_output_x(pub, tree):
+    """output key x for a single-leaf tree by hashlib + libsecp256k1 (independent of the library under test)"""
+    import coincurve, hashlib
+    from bitcoinutils.script import Script
+    def tag(t, m):
+        th = hashlib.sha256(t).digest(); return hashlib.sha256(th + th + m).digest()
+    raw = Script(list(tree[1])).to_bytes()
+    ln = bytes([len(raw)]) if len(raw) < 253 else b'\xfd' + len(raw).to_bytes(2, 'little')
+    leaf = tag(b'TapLeaf', b'\xc0' + ln + raw)
+    px = pub.to_bytes()[:32]
+    return coincurve.PublicKey(b'\x02' + px).add(tag(b'TapTweak', px + leaf)).format(compressed=True)[1:].hex()
+
+
 def tree_cases(ctx, pub, tree, tag, every_leaf=True):
     rng = ctx.rng
     from bitcoinutils.utils import ControlBlock
@@ -83,7 +96,7 @@ def cases(ctx):
         if found >= ctx.n(2, 10): break
         tree = ('L', [cnt, 'OP_DROP', pub.to_x_only_hex(), 'OP_CHECKSIG'])
         prog, odd = pub.to_taproot_hex(TT.to_py(tree))
-        if prog.startswith('00'):
+        if _tree_output_x(pub, tree).startswith('00'):
             found += 1; ctx.count('output-x-leading-zero')
             yield from tree_cases(ctx, pub, tree, 'leading-zero-x')
     # key-path-only and raw-root addresses
